@@ -10,9 +10,13 @@ for j in mutants/*.json; do
   prop=$(jq -r .property "$j"); expect=$(jq -r .expect "$j")
   W=$(mktemp -d /tmp/verif-selftest.XXXXXX)
   git -C /repo worktree add -q --detach "$W/r" HEAD >/dev/null 2>&1
-  if ! git -C "$W/r" apply "$PWD/mutants/$n.patch"; then echo "MUTANT $n: patch does not apply"; FAIL=$((FAIL+1)); FAILED="$FAILED $n"; git -C /repo worktree remove --force "$W/r"; rm -rf "$W"; continue; fi
+  if ! git -C "$W/r" apply "$PWD/mutants/$n.patch" 2>/dev/null; then
+    git -C /repo worktree remove --force "$W/r"; rm -rf "$W"
+    if [ -n "${SELFTEST_LENIENT:-}" ]; then echo "skipped $n: patch does not apply to this HEAD"; continue; fi
+    echo "MUTANT $n: patch does not apply"; FAIL=$((FAIL+1)); FAILED="$FAILED $n"; continue
+  fi
   if ! (cd "$W/r" && GOFLAGS= GOPROXY=off go build ./x/... >/dev/null 2>&1); then echo "MUTANT $n: does not compile"; FAIL=$((FAIL+1)); FAILED="$FAILED $n"; git -C /repo worktree remove --force "$W/r"; rm -rf "$W"; continue; fi
-  out=$(VERIF_EVIDENCE_DIR="$W/ev" VERIF_OUT_DIR="$W/out" ../bin/govc check "$prop" -repo "$W/r" 2>&1); rc=$?
+  out=$(VERIF_TIER=quick VERIF_NO_SELFTEST=1 VERIF_EVIDENCE_DIR="$W/ev" VERIF_OUT_DIR="$W/out" ../bin/govc check "$prop" --tier quick -repo "$W/r" 2>&1); rc=$?
   git -C /repo worktree remove --force "$W/r" >/dev/null 2>&1; rm -rf "$W"
   if [ $rc -eq 1 ] && echo "$out" | grep -q "^VIOLATION property=$prop"; then
     PASS=$((PASS+1)); echo "killed   $n ($prop): $(echo "$out" | grep -c '^VIOLATION') violation line(s), $(echo "$out" | grep '^VIOLATION' | grep -vc 'no-failing-input-found') replayed on the real code"
